@@ -117,3 +117,62 @@ def confirm_hangs(lines, answers, stat=None, cap=40):
             if stat:
                 stat("slow_under_load")
     return answers
+
+
+# ---------------------------------------------------------------- structured multi-line constructs
+
+# (name, opener, closer, content words, mode): every lexing construct that may span lines
+MULTILINE = [
+    ("doc-hash", "##[", "]##", ["doc", "a b", "]", "#", "##[ n ]##"], "n"),
+    ("doc-slash", "/**", "**/", ["doc", "a b", "*", "/** n **/"], "n"),
+    ("block-hash", "#[", "]#", ["c", "a b", "#[ n ]#", "]"], "n"),
+    ("block-slash", "/*", "*/", ["c", "a b", "/* n */", "*"], "n"),
+    ("raw-string", "'", "'", ["r", "a b", "${x}"], "n"),
+    ("string", '"', '"', ["s", "a ${b} c", "#{d}", "$e \\n"], "n"),
+    ("string-interp", '"a ${', '} z"', ["b +", "c", "1"], "n"),
+    ("regex", "%/", "/x", ["a+", "b # c", "${d}"], "n"),
+    ("word-list", "\\w[", "]", ["foo", "bar baz", "q"], "n"),
+    ("symbol-set", "^s[", "]", ["foo", "bar baz", "q"], "n"),
+    ("hex-tuple", "%x[", "]", ["ff", "1a 2b", "0"], "n"),
+    ("bin-list", "\\b[", "]", ["101", "1 0", "11"], "n"),
+    ("char", "`", "`", ["a", "ab"], "n"),
+    ("quoted-ivar", '@"', '"', ["iv", "a b"], "n"),
+    ("embellished-3", "text ```", "``` more", ["x = 1", "\"s\" + y", "# c"], "e"),
+    ("embellished-1", "see `", "` and", ["1 + 2", "a.b"], "e"),
+]
+
+
+def multiline_grid():
+    """Deterministic grid: every multi-line construct x 2-4 lines (opening and closing line included) x independent
+    per-line indentation 0..4 x (blank lines, tabs vs spaces, text before/after the terminator, terminator right
+    after the opener, unterminated). Returns [(mode, bytes, construct)]."""
+    out = []
+    pre_texts = ["", "x", "]", " ]"]
+    posts = ["", " y", "\n  z"]
+    for name, op, cl, words, mode in MULTILINE:
+        combos = [(a, b) for a in range(5) for b in range(5)]
+        combos += [(a, b, c) for a in range(5) for b in range(5) for c in range(5)]
+        combos += [(a, b, c, d) for a in (0, 2, 4) for b in (0, 2, 4) for c in (0, 2, 4) for d in (0, 1, 3)]
+        for k, ind in enumerate(combos):
+            n = len(ind)
+            ws = "\t" if k % 7 == 3 else " "
+            mixed = k % 11 == 5
+            lines = []
+            for i, w in enumerate(ind):
+                pad = (ws * w) if not (mixed and i % 2) else ("\t " * w)[:w]
+                if i == 0:
+                    first = words[k % len(words)] if k % 3 else ""
+                    lines.append(pad + ("v = " if k % 5 == 1 else "") + op + ((" " + first) if first and k % 2 else first))
+                elif i == n - 1:
+                    unterminated = k % 13 == 7
+                    lines.append(pad + pre_texts[(k // 2) % len(pre_texts)] + ("" if unterminated else cl + posts[k % len(posts)]))
+                else:
+                    blank = k % 9 == 4 and i == 1
+                    lines.append("" if blank else pad + words[(k + i) % len(words)])
+            nl = "\r\n" if k % 17 == 9 else "\n"
+            out.append((mode, nl.join(lines).encode(), name))
+        # the degenerate layouts once per construct
+        for src in (op + cl, op + "\n" + cl, op + cl + "\n" + cl, op + "\n\n\n" + cl + " y", op, op + "\n", "  " + op + "\n    a\n" + cl,
+                    op + "\n    a\n    b\nx" + cl, op + "\n\t\ta\n " + cl[:1] + cl, op + " a\n" + op + " b\n" + cl + "\n" + cl):
+            out.append((mode, src.encode(), name))
+    return out
